@@ -79,6 +79,8 @@ def generate(tier, seed, work, stats):
             calls = tlaparse.to_json(st["hist"])
             if calls:
                 cases.append(dict(kind="fa", fkind=kind, calls=calls, L=3, family="FAGen"))
+    # P3: the calls the repository's own tests make, re-judged by the trace specification
+    cases += core.record_tests(["/repo/pyformlang"], work, {"translate"}, stats)
     return cases
 
 
